@@ -1,0 +1,39 @@
+// Copyright Suneido Software Corp. All rights reserved.
+// Governed by the MIT license found in the LICENSE file.
+
+//go:build verif
+
+package db19
+
+import "sync/atomic"
+
+// Verification hooks, only compiled with the verif build tag.
+// They let an external runtime monitor observe every state transition
+// and pause/perturb the pipeline between its critical sections.
+// They do not change behavior unless a monitor installs functions.
+
+// VerifOnUpdate, if set, is called by updateState (holding the state mutex)
+// with the old state and the new state produced by the update function.
+var VerifOnUpdate atomic.Pointer[func(old, new *DbState)]
+
+// VerifPoint, if set, is called at named points:
+//   - "commit.checked" (arg *UpdateTran) in the checker, after the conflict
+//     check of a commit succeeded and before the transaction is applied
+//   - "commit.apply" (arg *UpdateTran), "merge.apply", "persist.apply"
+//     inside the respective UpdateState functions (holding the state mutex)
+//   - "merge.computed", "persist.computed" in the merger, after the
+//     merge/persist results have been computed from a snapshot
+//     and before they are applied to the latest state
+var VerifPoint atomic.Pointer[func(name string, arg any)]
+
+func verifOnUpdate(old, new *DbState) {
+	if fn := VerifOnUpdate.Load(); fn != nil {
+		(*fn)(old, new)
+	}
+}
+
+func verifPoint(name string, arg any) {
+	if fn := VerifPoint.Load(); fn != nil {
+		(*fn)(name, arg)
+	}
+}
